@@ -347,6 +347,9 @@ def snapshot(metamodel):
     return snap
 
 
+TWO_HOP = [0]        # number of two-hop navigations compared (evidence)
+
+
 class Bound(object):
     '''a shadow together with the real metamodel and the handle <-> instance map'''
 
@@ -421,6 +424,25 @@ class Bound(object):
                             else (self.handle_of(one) in exp) != bool(exp)):
                         diffs.append(('navigate_one', 'from #%d ->%s[R%d,%r]: %r, expected %r'
                                       % (h, to, r.rel, phrase, self.handle_of(one), exp1)))
+            # across an association class in one step (two hops through the link instances)
+            for r1 in self.schema.rops:
+                for r2 in self.schema.rops:
+                    if r1 is r2 or r1.rel != r2.rel or r1.src != r2.src or r1.tgt.upper() != kh \
+                            or r1.src.upper() == kh or r1.tgt_phrase != r2.src_phrase:
+                        continue
+                    if any(r.rel == r1.rel and ((r.src.upper() == kh and r.tgt == r2.tgt and r.src_phrase == r1.tgt_phrase) or
+                                                (r.tgt.upper() == kh and r.src == r2.tgt and r.tgt_phrase == r1.tgt_phrase))
+                           for r in self.schema.rops):
+                        continue
+                    exp = (sh.navigate(h, r2.tgt, r1.rel, r1.tgt_phrase) or []) if sh.alive[h] else []
+                    try:
+                        got = [self.handle_of(x) for x in xtuml.navigate_many(inst).nav(r2.tgt, r1.rel, r1.tgt_phrase)()]
+                    except xtuml.MetaException as e:
+                        got = 'raised %s' % type(e).__name__
+                    TWO_HOP[0] += 1
+                    if (sorted(got, key=repr) != sorted(exp, key=repr)) if isinstance(got, list) else True:
+                        diffs.append(('navigate', 'from #%d across the association class ->%s[R%d,%r]: %r, expected %r'
+                                      % (h, r2.tgt, r1.rel, r1.tgt_phrase, got, exp)))
             if not sh.alive[h]:
                 continue
             for a, ty in self.schema.attrs(kh):
